@@ -271,7 +271,7 @@ func Run(p *Program, o Opts) (res Outcome) {
 		for _, e := range es {
 			tail = append(tail, sim.DescribeEntry(e))
 		}
-		res.Hung = fmt.Sprintf("case did not finish within 60 s; log:\n    %s\n  last RPCs:\n    %s", strings.Join(w.Log, "\n    "), strings.Join(tail, "\n    "))
+		res.Hung = fmt.Sprintf("case did not finish within 60 s; log:\n    %s\n  last RPCs:\n    %s\n  goroutines:\n%s", strings.Join(w.Log, "\n    "), strings.Join(tail, "\n    "), sim.GoroutineDump())
 		return
 	}
 	res.Log = w.Log
